@@ -566,7 +566,7 @@ theorem swapCore_inv {s : PmState} {offer : Coin} {ask : Denom} {b ms : Option N
     {y : PmState × SwapResult} (h : swapCore s [offer] ask b ms pid = .ok y) :
     offer.denom ≠ ask ∧ offer.amount ≠ 0 ∧ performSwap s offer ask pid b ms = .ok y := by
   unfold swapCore at h
-  simp only [↓ok_bind, ↓ite_err_ok, ↓bind_ok, ↓err_bind_ok, ↓pure_bind'] at h
+  simp only [↓ok_bind, ↓ite_err_bind_ok, ↓bind_ok, ↓err_bind_ok, ↓pure_bind'] at h
   obtain ⟨pool, hp, hst, o', ho, hne, hall, h⟩ := h
   have ho' : o' = offer ∧ offer.amount ≠ 0 := by
     unfold oneCoin at ho
@@ -584,7 +584,7 @@ theorem plTail_none_mints {s s' : PmState} {env : PmEnv} {sender : Addr} {pool :
   unfold plTail at h
   simp only [] at h
   obtain ⟨pa', hpa, h⟩ := bind_ok.mp h
-  simp only [↓ite_err_ok, ↓pure_bind'] at h
+  simp only [↓ite_err_bind_ok, ↓pure_bind'] at h
   obtain ⟨hv, h⟩ := h
   obtain ⟨as', has, h⟩ := bind_ok.mp h
   simp only [pure_ok, Prod.mk.injEq] at h
